@@ -162,3 +162,25 @@ Proof. exact C17_nlri_encode_safe. Qed.
 Check nlri_encode_safe :
   forall (p : profile) (n : nlri), wf_nlri n -> exists b, encode_nlri p n = Ok b.
 Print Assumptions nlri_encode_safe.
+
+(* (12) A path GrpcService::local_path accepts carries a well-formed NLRI and a list of
+   well-formed attributes that includes ORIGIN and AS_PATH (so, by (7), it can be
+   inserted next to any well-formed path, encoded and listed). *)
+Theorem local_path_accepts_wf :
+  forall (v6r : list N -> option N) (fam : option N) (n : api_nlri) (xs : list api_attr)
+         (family : N) (net : nlri) (attrs : list attr) (nh : option (list N)),
+    v6_range v6r -> Forall api_in_range xs ->
+    local_path v6r fam n xs = Some (family, net, attrs, nh) ->
+    wf_nlri net /\ Forall wf_attr attrs
+    /\ existsb (fun a => a_code a =? ORIGIN) attrs = true
+    /\ existsb (fun a => a_code a =? AS_PATH) attrs = true.
+Proof. exact C17_local_path_accepts_wf. Qed.
+Check local_path_accepts_wf :
+  forall (v6r : list N -> option N) (fam : option N) (n : api_nlri) (xs : list api_attr)
+         (family : N) (net : nlri) (attrs : list attr) (nh : option (list N)),
+    v6_range v6r -> Forall api_in_range xs ->
+    local_path v6r fam n xs = Some (family, net, attrs, nh) ->
+    wf_nlri net /\ Forall wf_attr attrs
+    /\ existsb (fun a => a_code a =? ORIGIN) attrs = true
+    /\ existsb (fun a => a_code a =? AS_PATH) attrs = true.
+Print Assumptions local_path_accepts_wf.
